@@ -12,7 +12,7 @@ verus! {
 pub mod syscalls {
     use super::*;
 //@include prelude/syserr_opaque.rs
-//@use syscalls.geteuid
+//@use syscalls.geteuid u07
 //@use-missing syscalls.openat syscalls.openat_follow syscalls.readlinkat syscalls.mkdirat syscalls.mknodat syscalls.unlinkat syscalls.linkat syscalls.symlinkat syscalls.renameat syscalls.renameat2 syscalls.openat2
 }
 use syscalls::Error as SyscallError;
